@@ -18,7 +18,7 @@ import subprocess
 import sys
 
 V = os.path.dirname(os.path.dirname(os.path.abspath(__file__)))
-REPO = "/repo"
+REPO = os.environ.get("NIVERIF_REPO", "/repo")
 PY = "/venv/bin/python"
 
 
